@@ -747,3 +747,145 @@ func mustReachAfter(fn *ssa.Function, holds func(l lit) bool, goal func(ssa.Inst
 	}
 	return false
 }
+
+// ---------------------------------------------------------------------------
+// R-REENCODE-STABLE
+
+var rReencodeStable = &Rule{
+	Name: "R-REENCODE-STABLE",
+	Doc: "forwarding does not recompute: when the decoder registered for a type rebuilds a nested error with DecodeError and stores it in a field, the encoder of that type does not derive the reportable strings it sends from that nested error - except where a field that the decoder fills from the received strings is absent (the value was created locally). " +
+		"A process that knows the outer type but not every type inside the nested error decodes the nested error into opaque stand-ins; whatever it computes from them (a verbose rendering, collected safe details) differs from what the origin computed, so the message it forwards is not the message it received",
+	Run: func(c *core.Ctx) {
+		p := c.P
+		e := originEngine(c)
+		cs := GetCensus(c)
+		n := 0
+		for _, er := range cs.Regs {
+			if !er.IsEnc() || er.Fn == nil || er.Fn.Blocks == nil || !p.InModule(er.Fn) {
+				continue
+			}
+			for _, kt := range er.KeyTypes {
+				named := sx.NamedOf(kt)
+				if named == nil {
+					continue
+				}
+				// the decoder(s) of the same key: fields filled from DecodeError, and fields filled from the received strings
+				nested, fromDetails := map[string]bool{}, map[string]bool{}
+				for _, dr := range cs.Regs {
+					if !dr.IsDec() || dr.Fn == nil || dr.Fn.Blocks == nil {
+						continue
+					}
+					same := false
+					for _, dk := range dr.KeyTypes {
+						if types.Identical(dk, kt) {
+							same = true
+						}
+					}
+					if !same {
+						continue
+					}
+					var det *ssa.Parameter
+					for _, prm := range dr.Fn.Params {
+						if sl, ok := types.Unalias(prm.Type()).Underlying().(*types.Slice); ok && isStringType(sl.Elem()) {
+							det = prm
+						}
+					}
+					regionOf(dr.Fn).each(func(in ssa.Instruction) {
+						st, ok := in.(*ssa.Store)
+						if !ok {
+							return
+						}
+						fa, ok := st.Addr.(*ssa.FieldAddr)
+						if !ok || sx.NamedOf(fa.X.Type()) == nil || sx.NamedOf(fa.X.Type()).Obj() != named.Obj() {
+							return
+						}
+						if call, ok := st.Val.(*ssa.Call); ok && sx.Callee(call) != nil && sx.Callee(call).Name() == "DecodeError" {
+							nested[sx.FieldOf(fa).Name()] = true
+						}
+						if det != nil && st.Val == ssa.Value(det) {
+							fromDetails[sx.FieldOf(fa).Name()] = true
+						}
+					})
+				}
+				if len(nested) == 0 {
+					continue
+				}
+				n++
+				tname := named.Obj().Name()
+				usesNested := func(v ssa.Value) string {
+					for k := range recvSubs(e, v, nil) {
+						for f := range nested {
+							if k == tname+"."+f || strings.HasPrefix(k, tname+"."+f+".") {
+								return f
+							}
+						}
+					}
+					return ""
+				}
+				// guardedByAbsence: the literals say that a field filled from the received strings is nil
+				guardedByAbsence := func(lits []lit) bool {
+					for _, l := range lits {
+						bin, ok := l.V.(*ssa.BinOp)
+						if !ok || !((bin.Op == token.EQL && !l.Neg) || (bin.Op == token.NEQ && l.Neg)) {
+							continue
+						}
+						var other ssa.Value
+						if sx.IsNil(bin.Y) {
+							other = bin.X
+						} else if sx.IsNil(bin.X) {
+							other = bin.Y
+						}
+						if other == nil {
+							continue
+						}
+						if pth := recvFieldPathOf(other); pth != "" && fromDetails[pth] {
+							return true
+						}
+					}
+					return false
+				}
+				for _, ret := range sx.Returns(er.Fn) {
+					if len(ret.Results) < 2 {
+						continue
+					}
+					construct := load.FnName(er.Fn) + ": reportable strings of a forwarded " + tname
+					var check func(v ssa.Value, lits []lit, d int)
+					check = func(v ssa.Value, lits []lit, d int) {
+						if d > 4 {
+							return
+						}
+						if ph, ok := v.(*ssa.Phi); ok {
+							for i, ev := range ph.Edges {
+								pb := ph.Block().Preds[i]
+								check(ev, append(append([]lit{}, dominatingLits(pb)...), edgeLits(pb, ph.Block())...), d+1)
+							}
+							return
+						}
+						f := usesNested(v)
+						if f == "" {
+							c.Ob(construct, ret.Pos(), true, "not computed from the nested error")
+							return
+						}
+						c.Check(guardedByAbsence(lits), construct, ret.Pos(), "taken from what was received, recomputed only for a value created locally",
+							"the encoder computes the reportable strings from the nested error in field "+f+", which the decoder rebuilds with DecodeError: a process that does not know every type inside it computes other strings than the origin did, so the forwarded message differs from the received one")
+					}
+					check(ret.Results[1], dominatingLits(ret.Block()), 0)
+				}
+			}
+		}
+		c.Min("encoders of types that carry a nested encoded error", n, 2)
+	},
+}
+
+// recvFieldPathOf: v is a load of x.f - returns f (the owner is not checked: used with field names of one type).
+func recvFieldPathOf(v ssa.Value) string {
+	ld, ok := v.(*ssa.UnOp)
+	if !ok || ld.Op != token.MUL {
+		return ""
+	}
+	fa, ok := ld.X.(*ssa.FieldAddr)
+	if !ok {
+		return ""
+	}
+	return sx.FieldOf(fa).Name()
+}
